@@ -2557,7 +2557,7 @@ impl BrailleChars {
                     return text=="?" || text=="-?-" || text.is_empty();   // various forms of "fill in missing content" (see also Nemeth_RULEs.yaml, "omissions")
                 },
                 "mrow" => {
-                    if IsBracketed::is_bracketed(node, "", "", false, false) {
+                    if node.children().len() > 1 && IsBracketed::is_bracketed(node, "", "", false, false) {
                         return child_meets_conditions(as_element(node.children()[1]));
                     } else {
                         for child in node.children() {
